@@ -39,6 +39,8 @@ def gen(rng):
     n = int(rng.integers(3, 41))
     while True:
         ref = rng.uniform(-50, 80, size=(n, 2))
+        if rng.random() < 0.3:
+            ref = np.rint(ref)                 # pixel positions: also passed with an integer dtype below
         if np.linalg.cond(np.hstack([ref - ref.mean(axis=0), np.ones((n, 1))])) < 1e3:
             break
     L, t = rand_map(rng)
@@ -60,6 +62,17 @@ def stmt_failure(ref, L, t, centre, w, noise=None):
                                                                                                          None if w is None else 'given')
     if np.abs(fit[:, 2] - np.array([0, 0, 1])).max() > 1e-9:
         return 'last column of the fitted matrix is not (0,0,1): %s' % fit[:, 2].tolist()
+    if np.array_equal(ref, np.rint(ref)):
+        # the same reference points as an integer array (pixel positions) must give the same result
+        try:
+            ri = ref.astype(np.int64)
+            fit_i = grm.get_transformation(ri, peaks, center=centre, weighs=w)
+            back_i = grm.do_transformation(fit_i, ri, center=centre)
+        except Exception as e:  # noqa
+            return 'raised %s for integer reference points: %s' % (type(e).__name__, e)
+        if np.abs(back_i - peaks).max() > 1e-8 * sc:
+            return 'round trip with integer-dtype reference points does not reproduce the target points (max error %.4g; centre %s)' % (
+                np.abs(back_i - peaks).max(), None if centre is None else centre.tolist())
     if noise is not None:
         pk = peaks + noise
         fit2 = grm.get_transformation(ref, pk, center=centre, weighs=w)
